@@ -125,3 +125,64 @@ Theorem C12_self_play_batches_encodable : forall cfg (games : list (list answer 
   Forall wf_transcript (map (fun g => snd (fst (fst g))) games) /\
   Forall EncodingSpec.encodable (flat_map t_positions (map (fun g => snd (fst (fst g))) games)).
 Proof. exact ComposeBatch.self_play_batches_encodable. Qed.
+
+(* ---- the same about dedup_batch / encode_games REGENERATED FROM THE SOURCE (gen/BatchGen.v, harness/torch2coq.py against model/TorchLite.v; proofs/BatchGenEq.v) ---- *)
+From TV Require Import model.Tak model.PySem model.SelfPlay model.Batch model.TorchLite.
+From TV Require Import spec.SelfPlaySpec spec.BatchSpec proofs.BatchGenEq.
+From TV Require gen.BatchGen.
+(* the translated dedup_batch IS the model's dedup on every well-shaped batch *)
+Theorem C12_source_dedup_eq :
+  forall b, well_shaped b -> BatchGen.dedup_batch (to_dict b) = Ok (to_dict (dedup b)).
+Proof. exact gen_dedup_eq. Qed.
+(* ... so no KeyError / IndexError / shape error escapes there *)
+Theorem C12_source_dedup_never_crashes :
+  forall b, well_shaped b -> forall e, BatchGen.dedup_batch (to_dict b) <> Crash e.
+Proof. exact gen_dedup_never_crashes. Qed.
+(* the translated encode_games IS the model's encode_games (non-empty list of aligned transcripts whose logits exist) *)
+Theorem C12_source_encode_games_eq :
+  forall enc logs b, logs <> [] -> Forall wf_transcript logs ->
+  Batch.encode_games enc logs = Some b ->
+  BatchGen.encode_games logits_oracle results_oracle (encode_batch_oracle enc) logs = Ok (to_dict b).
+Proof. exact gen_encode_games_eq. Qed.
+(* C12_dedup_keys for the generated function *)
+Theorem C12_source_dedup_keys :
+  forall b, well_shaped b ->
+  exists o, BatchGen.dedup_batch (to_dict b) = Ok (to_dict o) /\
+    map key_of o = first_occ (map key_of b) /\ NoDup (map key_of o) /\
+    (forall k, In k (map key_of o) <-> In k (map key_of b)).
+Proof. exact gen_dedup_keys. Qed.
+(* C12_dedup_mean *)
+Theorem C12_source_dedup_mean :
+  forall b, well_shaped b ->
+  exists o, BatchGen.dedup_batch (to_dict b) = Ok (to_dict o) /\
+    forall k r, nth_error o k = Some r ->
+      let occ := occurrences (key_of r) b in
+      occ <> [] /\ (r_value r == qmean (map r_value occ))%Q /\ (r_label r == qmean (map r_label occ))%Q /\
+      forall w, Forall (fun r' => length (r_policy r') = w) occ ->
+        length (r_policy r) = w /\
+        forall j, (nth j (r_policy r) 0 == qmean (map (fun r' => nth j (r_policy r') 0) occ))%Q.
+Proof. exact gen_dedup_mean. Qed.
+(* C12_dedup_nodup_id *)
+Theorem C12_source_dedup_nodup_id :
+  forall b, well_shaped b -> NoDup (map key_of b) ->
+  exists o, BatchGen.dedup_batch (to_dict b) = Ok (to_dict o) /\ Forall2 row_equiv o b.
+Proof. exact gen_dedup_nodup_id. Qed.
+(* C12_dedup_mask_positions *)
+Theorem C12_source_dedup_mask_positions :
+  forall b, well_shaped b ->
+  exists o, BatchGen.dedup_batch (to_dict b) = Ok (to_dict o) /\
+    forall k r, nth_error o k = Some r ->
+      exists i r0, first_at b (key_of r) i r0 /\ r_tokens r = r_tokens r0 /\ r_mask r = r_mask r0.
+Proof. exact gen_dedup_mask_positions. Qed.
+(* C12_rows_in_order *)
+Theorem C12_source_rows_in_order :
+  forall enc logs, logs <> [] -> Forall wf_transcript logs ->
+  (forall tr, In tr logs -> logits tr <> None) ->
+  exists b, BatchGen.encode_games logits_oracle results_oracle (encode_batch_oracle enc) logs = Ok (to_dict b) /\
+    let w := max_len (map enc (flat_map t_positions logs)) in
+    length b = length (flat_map t_positions logs) /\
+    forall g tr i p, nth_error logs g = Some tr -> nth_error (t_positions tr) i = Some p ->
+      exists lg pol v, logits tr = Some lg /\ nth_error lg i = Some pol /\ nth_error (t_values tr) i = Some v /\
+        nth_error b (offset logs g + i) =
+          Some (mkRow (pad_tokens w (enc p)) (pad_mask w (enc p)) pol v (inject_Z (label (t_result tr) p))).
+Proof. exact gen_rows_in_order. Qed.
